@@ -53,9 +53,13 @@ Definition wres_eqb (a b : wres) : bool :=
   | _, _ => false
   end.
 
-(* the model's [write] answers Err exactly for the panic inside write_fmt (Model.v) *)
+(* the model's [write] answers Err for the error of check_fields and for the panic inside write_fmt
+   (Model.v); the check comes first *)
 Definition write_res (M : mappings) : wres :=
-  match write M with Ok t => WOk t | Err => WPanic end.
+  match write M with
+  | Ok t => WOk t
+  | Err => if fields_checked M then WPanic else WErr
+  end.
 
 Inductive case :=
 | CWrite (M : mappings) (w : wres)
@@ -65,17 +69,19 @@ Inductive case :=
        the reader keeps the order of the lines) *)
 | CReadBytes (n : N) (bs : list N) (r : res mappings)
     (* read::<n> of the BYTES bs (any bytes, not necessarily UTF-8) against the byte-level model *)
-| CWriteRead (M : mappings) (hyp : bool) (w : wres) (r : res mappings).
+| CWriteRead (M : mappings) (hyp : bool) (judged : bool) (w : wres) (r : res mappings).
     (* write_string M = w and, when w is a text, read::<number of namespaces of M> of it = r;
-       hyp: the harness' copy of the theorems' hypotheses (wf M && textual M) agrees with Coq's *)
+       hyp: the harness' copy of the theorems' hypotheses (wf M && textual M) agrees with Coq's;
+       judged: the harness' copy of (wf M && typed M) — the sets its oracle judges — agrees too *)
 
 Definition check (c : case) : bool :=
   match c with
   | CWrite M w => wres_eqb (write_res M) w
   | CRead n t r => res_eqb mappings_eqb (read (N.to_nat n) t) r
   | CReadBytes n bs r => res_eqb mappings_eqb (read_bytes (N.to_nat n) bs) r
-  | CWriteRead M hyp w r =>
+  | CWriteRead M hyp judged w r =>
       Bool.eqb (wf M && textual M) hyp &&
+      Bool.eqb (wf M && typed M) judged &&
       wres_eqb (write_res M) w &&
       match w with
       | WOk t => res_eqb mappings_eqb (read (length (ms_ns M)) t) r
